@@ -182,12 +182,12 @@ def _accessors(ck: Checker) -> None:
         ck.require(bool(ens) and w is None, "C17.accessors", ls, y, "ls loads the listed directory first", "ls can list a directory without loading it", witness=g.fmt_path(w) if w else None)
 
 
-def _children(ck: Checker) -> None:
+def _children(ck: Checker, rule: str = "C17.children") -> None:
     prog = ck.prog
     fn = prog.func("index.index", "_load_from_object_storage")
     g = ck.cfg(fn)
     rows = [h for h in g.nodes.values() if h.kind == "for" and isinstance(h.ast.iter, ast.Call) and is_method_call(h.ast.iter, "iteritems", "items", "__iter__") and len(h.loops) == 1]
-    ck.floor("C17.children", len(rows), 1, "row loops in _load_from_object_storage")
+    ck.floor(rule, len(rows), 1, "row loops in _load_from_object_storage")
     h = rows[0]
     ik = norm(h.ast.target.elts[0]) if isinstance(h.ast.target, ast.Tuple) else None
     stores = [n for n in g.nodes.values() if h.id in n.loops and n.kind == "stmt" and isinstance(n.ast, ast.Assign) and isinstance(n.ast.targets[0], ast.Subscript) and norm(n.ast.targets[0].value) == "trie"]
@@ -195,10 +195,10 @@ def _children(ck: Checker) -> None:
     starts = [d for lab, d in h.succ if lab == "T"]
     # inner loops may cycle; the row's store must lie on every path back to the row header
     r = g.reach(starts, skip_node=lambda x: x.id in sids, skip_edge=lambda a, l, b: l == "exc")
-    ck.require(bool(stores) and h.id not in r, "C17.children", fn, h, "every listed row is stored in the trie", "a listed row can be skipped without being stored", construct="rows / NODROP")
+    ck.require(bool(stores) and h.id not in r, rule, fn, h, "every listed row is stored in the trie", "a listed row can be skipped without being stored", construct="rows / NODROP")
     for s in stores:
         keyalts = [norm(a) for a in expand1(prog, fn, s.ast.targets[0].slice, levels=2)]
-        ck.require(any(k == f"root_entry.key + {ik}" for k in keyalts), "C17.children", fn, s, "row is stored under root key + row key", f"row is stored under {keyalts}")
+        ck.require(any(k == f"root_entry.key + {ik}" for k in keyalts), rule, fn, s, "row is stored under root key + row key", f"row is stored under {keyalts}")
     # all proper prefixes become directories
     adds = [(n, c) for n in g.nodes.values() if h.id in n.loops for c in calls_at(n) if is_method_call(c, "add") and c.args and isinstance(c.args[0], ast.Subscript) and norm(c.args[0].value) == ik]
     ok = False
@@ -221,7 +221,7 @@ def _children(ck: Checker) -> None:
                     ok = ih.id not in rr
                 else:
                     why = f"prefix loop is `for {iv} in {norm(it)}` adding {norm(c.args[0])}: it does not enumerate every proper prefix {ik}[:1] .. {ik}[:-1]"
-    ck.require(ok, "C17.children", fn, adds[0][0] if adds else h, "every proper prefix of every row key becomes an (implicit) directory entry",
+    ck.require(ok, rule, fn, adds[0][0] if adds else h, "every proper prefix of every row key becomes an (implicit) directory entry",
                f"not every proper prefix of a row key gets a directory entry ({why}): intermediate directories of nested listings are missing from the lazily loaded index")
     dl = [x for x in g.nodes.values() if x.kind == "for" and not (set(x.loops) & {h.id}) and isinstance(x.ast.iter, ast.Name)]
     okd = False
@@ -230,7 +230,7 @@ def _children(ck: Checker) -> None:
         for y in body:
             v = norm(y.ast.value)
             okd = "isdir=True" in v and "loaded=True" in v
-    ck.require(okd, "C17.children", fn, dl[0] if dl else fn.node, "implicit directories are stored as loaded directory entries", "implicit directory entries are not stored as Meta(isdir=True), loaded=True", construct="for dkey in dirs: trie[...] = DataIndexEntry(isdir, loaded)")
+    ck.require(okd, rule, fn, dl[0] if dl else fn.node, "implicit directories are stored as loaded directory entries", "implicit directory entries are not stored as Meta(isdir=True), loaded=True", construct="for dkey in dirs: trie[...] = DataIndexEntry(isdir, loaded)")
 
 
 def _fs(ck: Checker) -> None:
